@@ -90,7 +90,7 @@ FILTER_POOL = [
 ]
 
 
-async def c20_case(backend, workers, seed, counters, nevents=40, only_ephemeral=False):
+async def c20_case(backend, workers, seed, counters, nevents=40, only_ephemeral=False, restart=False):
     r = random.Random(seed)
     viols, nontrivial, inconcl = [], [], []
     srv = e2e.Server(backend=backend, workers=workers)
@@ -119,9 +119,11 @@ async def c20_case(backend, workers, seed, counters, nevents=40, only_ephemeral=
         if len([p for p in placement if p is not None]) < 2 or any(c.worker is None for c in subs + pubs):
             inconcl.append("e2e: could not place subscribers on two worker processes (%r)" % placement)
             return viols, nontrivial, inconcl
-        # the notify clients connect 2 s after their worker's storage was set up
-        await asyncio.sleep(max(0.0, 3.5 - (time.time() - t_start)))
+        # the notify clients connect 2 s after their worker's storage was set up; every worker has served a
+        # connection by now, so its set-up is over
+        await asyncio.sleep(3.0)
         evs = []
+        used_a = False
         for i in range(nevents):
             roll = 0.99 if only_ephemeral else r.random()
             key = r.choice(keys)
@@ -130,10 +132,16 @@ async def c20_case(backend, workers, seed, counters, nevents=40, only_ephemeral=
             elif roll < 0.65:
                 kind, tags = 7, []
             elif roll < 0.85:
-                kind, tags = 30000, [["d", r.choice(["a", "b", "c%d" % i])]]
+                # a fresh d each (only one "a"): nothing is superseded before the other workers look it up
+                kind, tags = 30000, [["d", "c%d" % i if used_a else "a"]]
+                used_a = True
             else:
                 kind, tags = 20001, [["t", "x"]]
             evs.append(ref.make_event(key, kind=kind, created_at=T0 + i, tags=tags, content="e2e %d/%d" % (seed, i)))
+        # accepted events whose tags a careless receiver might trip over come FIRST: whatever they do to a
+        # worker's notify client shows in everything announced afterwards
+        for j, tags in enumerate(([["expiration", "soon"]], [["expiration"]], [["expiration", str(T0 * 3)]], [["e", "zz"], ["p"]])):
+            evs.insert(j, ref.make_event(keys[0], kind=1, created_at=T0 - 10 + j, tags=tags + [["t", "x"]], content="e2e odd %d/%d" % (seed, j)))
         origin = {}
         half = nevents // 2
         for i, ev in enumerate(evs):
@@ -200,6 +208,36 @@ async def c20_case(backend, workers, seed, counters, nevents=40, only_ephemeral=
         probs = e2e.log_problems(srv.log_text())
         if probs:
             viols.append({"key": "e2e/%s/server-log" % backend, "msg": "[e2e %s] the server's log shows: %s" % (backend, " | ".join(probs[:3])), "replay": rp})
+        # ---- an ordinary restart (stop, start at once on the same files): the workers find each other again
+        if restart:
+            for c in clients:
+                await c.close()
+            del clients[:]
+            srv.stop()
+            t_start = time.time()
+            srv.start()
+            subs = await spread(srv, "rsub", 2, 36, sub_setup)
+            pubs = await spread(srv, "rpub", 1, 16)
+            clients.extend(pubs)
+            await asyncio.sleep(3.0)
+            evs2 = [ref.make_event(keys[1], kind=1, created_at=T0 + 5000 + i, tags=[["t", "x"]], content="e2e after restart %d/%d" % (seed, i)) for i in range(8)]
+            origin2 = {}
+            for ev in evs2:
+                origin2[ev["id"]] = r.choice(pubs)
+                n0 = await origin2[ev["id"]].send(["EVENT", ev])
+                await origin2[ev["id"]].wait_for(lambda fr: any(isinstance(m, list) and m[:2] == ["OK", ev["id"]] for m in fr), timeout=30, since=n0 - 1)
+            await e2e.settle(clients, quiet=1.5, timeout=60)
+            for ev in evs2:
+                for c in subs:
+                    if ref.match_any(ev, c.filters) != "MUST":
+                        continue
+                    got = sum(1 for _, m in event_frames(c, "s") if isinstance(m[2], dict) and m[2].get("id") == ev["id"])
+                    cross = origin2[ev["id"]].worker != c.worker
+                    bump(counters, "e2e_pairs_after_restart")
+                    if got != 1:
+                        viols.append({"key": "e2e/%s/%s/%s/after-restart" % (backend, "missed" if got == 0 else "duplicated", "other-worker" if cross else "same-worker"),
+                                      "msg": "[e2e %s, %d worker processes] after an orderly stop and an immediate start on the same files, event %s accepted by worker %s was pushed %d times to subscriber %s on worker %s"
+                                             % (backend, workers, ev["id"][:12], origin2[ev["id"]].worker, got, c.name, c.worker), "replay": rp})
     except e2e_inconclusive as e:
         inconcl.append("e2e: %s" % e)
     finally:
@@ -856,7 +894,8 @@ def run_e2e_shard(prop, spec):
     counters = {}
     case, backend, seed = spec["e2e"], spec.get("backend", "sql"), int(spec.get("seed", 0))
     if case == "c20":
-        v, nt, inc = run(c20_case, backend, spec.get("workers", 2), seed, counters, nevents=spec.get("nevents", 40), only_ephemeral=spec.get("only_ephemeral", False))
+        v, nt, inc = run(c20_case, backend, spec.get("workers", 2), seed, counters, nevents=spec.get("nevents", 40), only_ephemeral=spec.get("only_ephemeral", False),
+                         restart=spec.get("restart", False))
         main = "e2e_pairs_checked"
     elif case == "c15":
         v, nt, inc = run(c15_case, backend, spec.get("workers", 3), seed, counters)
